@@ -625,7 +625,7 @@ func checkLouvainMx(c lvMxCase) *vk.Failure {
 
 func TestLouvainMultiplex(t *testing.T) {
 	vk.Run(t, "louvain-mx", vk.Opts{Quick: 3000, Thorough: 70000}, func(t *rapid.T) lvMxCase {
-		c := lvMxCase{M: drawMx(t, 30, true)}
+		c := lvMxCase{M: drawMx(t, 30, true, false)}
 		c.M.Labels, c.M.NilComms = nil, false
 		c.All = rapid.Bool().Draw(t, "all")
 		c.S1 = rapid.Uint64().Draw(t, "s1")
